@@ -110,6 +110,9 @@ def explore(run, focus, n_random, hosts=("plain",), malformed_rate=0.0, exhausti
             ops = gen_ops(rng, c, rng.randint(2, nops), q_rate=0.6)
         elif focus == "C23":
             ops = gen_ops(rng, c, rng.randint(1, nops), q_rate=0.0)
+            if rng.random() < 0.3:
+                # the same chart object started again after some events
+                ops += [(0, rng.randrange(1, c.n + 1))] + [(1, rng.randrange(c.nsig)) for _ in range(rng.randint(0, 2))]
         else:
             ops = gen_ops(rng, c, rng.randint(1, nops), q_rate=0.15)
         cases.append((c, ops, "random", getattr(c, "malformed", None)))
@@ -139,6 +142,8 @@ def explore(run, focus, n_random, hosts=("plain",), malformed_rate=0.0, exhausti
             interesting = name_oracle(run, focus, c, ops, real, hsm, cj, host, spied) or interesting
         if focus == "C22" and mal is None:
             purity_oracle(run, c, ops, real, cj, host, spied)
+            if run.evaluations % 4 == 0:
+                second_object_oracle(run, c, ops, real, fns, cj, host, spied)
         run.case(cj, nontrivial=interesting)
 
 
@@ -309,6 +314,20 @@ def name_oracle(run, focus, c, ops, real, hsm, cj, host, spied):
     return hit
 
 
+def second_object_oracle(run, c, ops, real, fns, cj, host, spied):
+    """the same state functions on a SECOND chart object of the same class: every query answers as on the first"""
+    real2, hsm2, _ = charts.run_real(c, ops, host=host, spied=spied, builder=lambda log, spied=False, counter=None: fns)
+    run.count("queries repeated on a second object sharing the state functions")
+    for i, (o, a) in enumerate(ops):
+        if i >= len(real) or i >= len(real2):
+            break
+        r1, r2 = parse(real[i]), parse(real2[i])
+        if r1["kind"] != r2["kind"] or (o in (2, 3) and r1.get("res") != r2.get("res")) or r1.get("state") != r2.get("state"):
+            run.violate("C22/second-object", "op %s on a second chart object that uses the same state functions: %s; on the first object: %s"
+                        % ((o, a), real2[i].split(" log=")[0], real[i].split(" log=")[0]), cj_upto(cj, i))
+            return
+
+
 def purity_oracle(run, c, ops, real, cj, host, spied):
     """the same script without its queries must give the same steps"""
     if not any(o in (2, 3) for o, _ in ops):
@@ -353,16 +372,24 @@ def explore_orthogonal(run, focus, n):
         bh = charts.probed_class(mhsm.HsmEventProcessor)()
         bf = b.build(blog, counter=bh._vp_count)
         berr = []
-        try:
-            bh.start_at(bf[bstart])
-        except Exception as ex:  # noqa
-            berr.append(type(ex).__name__)
+        started = [False]
+        late_start = (len(cases) + bstart) % 2 == 0        # half of the cases: chart B is started from one of A's actions
+        if not late_start:
+            try:
+                bh.start_at(bf[bstart])
+                started[0] = True
+            except Exception as ex:  # noqa
+                berr.append(type(ex).__name__)
 
         def eff(chart, i, kind, e):
             if (i, kind) in trig and not berr:
                 try:
                     bh._vp_calls = 0
-                    bh.dispatch(charts.ev(trig[(i, kind)]))
+                    if not started[0]:
+                        started[0] = True
+                        bh.start_at(bf[bstart])
+                    else:
+                        bh.dispatch(charts.ev(trig[(i, kind)]))
                 except (mhsm.HsmTopologyException, charts.Diverged) as ex:
                     berr.append(type(ex).__name__)
         real, hsm, fns = charts.run_real(a, ops, host="plain",
@@ -396,11 +423,17 @@ def explore_fallthrough(run, n):
         c.fallthrough = {bad}
         if rng.random() < 0.15:
             c.fallthrough.add(rng.randrange(1, c.n + 1))
+        if rng.random() < 0.3:
+            # another slip: an exit clause that does its work and forgets `return HANDLED` (no status for EXIT only); the Lean
+            # model has no such handler, so these charts are judged by the oracle alone
+            c.fallthrough = set()
+            c.exit_none = {bad}
         start = rng.randrange(1, c.n + 1)
         ops = [(0, start)] + [(1, rng.randrange(c.nsig)) for _ in range(rng.randint(1, 5))]
         gen.append((c, bad, ops, rng.choice(["plain", "plain", "instr", "queued"]), rng.random() < 0.5))
     model_out = leanrun.run_driver([c.encode(ops, family="hsmf") for c, _, ops, _, _ in gen])
     for (c, bad, ops, host, want_spied), mo in zip(gen, model_out):
+        exit_only = bool(getattr(c, "exit_none", None))
         saved = charts.CALL_LIMIT
         charts.CALL_LIMIT = 3000
         try:
@@ -410,7 +443,10 @@ def explore_fallthrough(run, n):
         cj = case_json(c, ops, {"host": host, "fallthrough": sorted(c.fallthrough)})
         run.traces_validated += 1
         model = mo.split(" | ")
-        if not (len(out) == len(model) and all(same_step(m, r) for m, r in zip(model, out))):
+        if exit_only:
+            cj["exit_none"] = sorted(c.exit_none)
+            run.count("exit clause without a status")
+        elif not (len(out) == len(model) and all(same_step(m, r) for m, r in zip(model, out))):
             run.disagree("hsm full call trace, charts with fall-through handlers (family hsmf)", cj, model, out)
         run.count("fall-through handler: " + ("raise" if out[-1].startswith("raise") else out[-1].split(" ")[0].split(":")[0]))
         if out[-1].startswith("diverge"):
@@ -433,6 +469,7 @@ def replay(case):
     if "fallthrough" in cc:
         ft = cc["fallthrough"]
         c.fallthrough = set(ft if isinstance(ft, list) else [ft])
+        c.exit_none = set(cc.get("exit_none", []))
         charts.CALL_LIMIT = 3000
         print("impl :", charts.run_real(c, ops, host=cc.get("host", "plain"))[0])
         print("model:", leanrun.run_driver([c.encode(ops, family="hsmf")])[0].split(" | "))
